@@ -85,6 +85,27 @@ class FindIdentifiers(_ast_util.NodeVisitor):
     def visit_ClassDef(self, node):
         self._add_declared(node.name)
 
+        # bases, keywords and decorators are evaluated in the enclosing
+        # scope; names assigned in the class body are attributes of the
+        # class, not variables of the enclosing scope
+        for n in node.decorator_list:
+            self.visit(n)
+        for n in node.bases:
+            self.visit(n)
+        for n in node.keywords:
+            self.visit(n.value)
+        self._visit_private_scope(node.body)
+
+    def _visit_private_scope(self, nodes):
+        inf = self.in_function
+        self.in_function = True
+        local_ident_stack = self.local_ident_stack
+        self.local_ident_stack = set(local_ident_stack)
+        for n in nodes:
+            self.visit(n)
+        self.in_function = inf
+        self.local_ident_stack = local_ident_stack
+
     def visit_Assign(self, node):
         # flip around the visiting of Assign so the expression gets
         # evaluated first, in the case of a clause like "x=x+5" (x
